@@ -5,7 +5,7 @@
    AztecProps.v. *)
 From Coq Require Import FMapPositive MSetPositive.
 From Verif Require Import Prelude Barcode BitListM GFM TabAztec AztecM AztecSpec
-     AztecPBase AztecPTab AztecPStuff AztecPLayout AztecPHL.
+     AztecPBase AztecPTab AztecPStuff AztecPLayout AztecPHL AztecPConfig.
 Local Ltac Zify.zify_post_hook ::= Z.div_mod_to_equations.
 
 (* ------------------------------------------------------------------ *)
@@ -120,7 +120,9 @@ Proof.
   rewrite !go_div_nonneg, go_mod_nonneg by lia.
   set (n := zlength bits / w) in *. set (T := total / w) in *.
   assert (Hlen : length bits = (Z.to_nat n * Z.to_nat w)%nat).
-  { unfold n. unfold zlength in *. nia. }
+  { assert (Hq : zlength bits = w * n) by (unfold n; apply Z.div_exact; lia).
+    assert (0 <= n) by (unfold n; apply Z.div_pos; lia).
+    apply Nat2Z.inj. rewrite Nat2Z.inj_mul, !Z2Nat.id by lia. fold (zlength bits). lia. }
   destruct (bits_to_words_spec (Z.to_nat w) (Z.to_nat n) bits Hlen) as (mw & Hmw & Hlmw & HFmw & Hbits).
   rewrite Hmw. cbn [obind].
   assert (Hrange : Forall (fun c => 0 <= c < gf_size f) mw).
@@ -136,9 +138,274 @@ Proof.
   split.
   - apply Forall_app. split; [exact HFmw|].
     eapply Forall_impl; [|exact HFecc]. intros x Hx. unfold word_range.
-    rewrite Z2Nat.id by lia. lia.
+    rewrite Z2Nat.id by lia. rewrite <- Hsize. exact Hx.
   - unfold sp_rs_ok. apply syndromes_zero. intros j Hj.
     rewrite <- Hbase. apply Hsyn. lia.
+Qed.
+
+(* capacities of the 36 configurations: the codeword count stays below the
+   field size (so a Reed-Solomon code exists) and fits the mode-message field *)
+Definition cfg_arith_ok (cfg : bool * Z) : bool :=
+  let '(c, L) := cfg in
+  let tb := sp_capacity c L in
+  let w := sp_word_size L in
+  (1 + tb / w <=? 2 ^ w) && (tb / w <=? 2048) && (0 <? tb).
+
+Lemma cfg_arith_all c L : cfg_valid c L ->
+  1 + sp_capacity c L / sp_word_size L <= 2 ^ sp_word_size L
+  /\ sp_capacity c L / sp_word_size L <= 2048 /\ 0 < sp_capacity c L.
+Proof.
+  assert (H : forallb cfg_arith_ok all_configs = true) by (vm_compute; reflexivity).
+  intros Hv. rewrite forallb_forall in H. specialize (H (c, L) (in_all_configs c L Hv)).
+  unfold cfg_arith_ok in H. lia.
+Qed.
+
+Lemma forall_forallb {A} (P : A -> Prop) (f : A -> bool) l :
+  (forall x, P x -> f x = true) -> Forall P l -> forallb f l = true.
+Proof. intros Hf HF. apply forallb_forall. rewrite Forall_forall in HF. auto. Qed.
+
+(* the symbol of a fitting configuration *)
+Definition symbol_parts (c : bool) (L : Z) (st : list bool) (msg mm : list bool) : Prop :=
+  exists mw cw mmw mcw : list Z,
+  msg = repeat false (Z.to_nat (sp_capacity c L mod sp_word_size L))
+        ++ az_words_bits (Z.to_nat (sp_word_size L)) (mw ++ cw)
+  /\ az_words_bits (Z.to_nat (sp_word_size L)) mw = st
+  /\ zlength mw = zlength st / sp_word_size L
+  /\ zlength cw = sp_capacity c L / sp_word_size L - zlength st / sp_word_size L
+  /\ Forall (word_range (Z.to_nat (sp_word_size L))) (mw ++ cw)
+  /\ sp_rs_ok (sp_gf (sp_word_size L)) (mw ++ cw)
+        (sp_capacity c L / sp_word_size L - zlength st / sp_word_size L) = true
+  /\ mm = az_words_bits 4 (mmw ++ mcw)
+  /\ az_words_bits 4 mmw =
+     (if c then msb_bits 2 (L - 1) ++ msb_bits 6 (zlength st / sp_word_size L - 1)
+      else msb_bits 5 (L - 1) ++ msb_bits 11 (zlength st / sp_word_size L - 1))
+  /\ Forall (word_range 4) (mmw ++ mcw)
+  /\ sp_rs_ok sp_gf4 (mmw ++ mcw) (if c then 5 else 6) = true
+  /\ zlength (mmw ++ mcw) = (if c then 7 else 10).
+
+Lemma symbol_spec c L st bits ecc : cfg_valid c L -> 11 <= ecc ->
+  az_stuff_bits bits (sp_word_size L) = Ok st -> az_fits bits ecc c L = true ->
+  exists msg mm,
+    az_symbol (c, L, az_total_bits L c, sp_word_size L, st) = Ok (az_draw c L msg mm)
+    /\ symbol_parts c L st msg mm
+    /\ zlength msg = az_total_bits L c /\ zlength mm = az_mode_len c
+    /\ 1 <= zlength st / sp_word_size L < sp_capacity c L / sp_word_size L
+    /\ zlength st mod sp_word_size L = 0
+    /\ (c = true -> zlength st / sp_word_size L <= 64)
+    /\ ecc <= (sp_capacity c L / sp_word_size L - zlength st / sp_word_size L) * sp_word_size L.
+Proof.
+  intros Hv Hecc Hst Hfit.
+  pose proof (sp_word_size_range L) as Hw. set (w := sp_word_size L) in *.
+  destruct (cfg_arith_all c L Hv) as (Hcap1 & Hcap2 & Hcap3). fold w in Hcap1, Hcap2.
+  destruct (az_stuff_correct w bits ltac:(lia)) as (out & k & Hst' & _ & _ & Hne & Hmod & _).
+  rewrite Hst in Hst'. inversion Hst'; subst out. clear Hst'.
+  unfold az_fits in Hfit. fold w in Hfit. rewrite Hst in Hfit.
+  apply andb_true_iff in Hfit. destruct Hfit as [Hfit1 Hfit2].
+  set (tb := sp_capacity c L) in *. set (D := zlength st / w).
+  assert (HD : zlength st = w * D) by (unfold D; apply Z.div_exact; lia).
+  assert (Hst_pos : 0 < zlength st).
+  { destruct st; [congruence|]. unfold zlength. simpl. lia. }
+  assert (HD1 : 1 <= D) by nia.
+  assert (HT : tb - tb mod w = w * (tb / w)) by (pose proof (Z.div_mod tb w ltac:(lia)); lia).
+  assert (HDT : D < tb / w) by nia.
+  assert (HD64 : c = true -> D <= 64).
+  { intros ->. cbn [negb orb] in Hfit2. nia. }
+  (* data + check words *)
+  assert (Hgf : az_get_gf w = Some (sp_gf w)) by (apply az_get_gf_iso; apply sp_word_size_cases).
+  destruct (generate_check_words_spec w (sp_gf w) st tb Hgf Hmod ltac:(lia) ltac:(fold D; lia)
+              ltac:(fold D; lia)) as (mw & cw & Hgen & Hmwb & Hmwl & Hcwl & Hrange & Hrs).
+  fold D in Hmwl, Hcwl, Hrs.
+  (* mode message *)
+  set (hdr := if c then msb_bits 2 (L - 1) ++ msb_bits 6 (D - 1)
+              else msb_bits 5 (L - 1) ++ msb_bits 11 (D - 1)).
+  assert (Hhdr_len : zlength hdr = if c then 8 else 16).
+  { unfold hdr. destruct c; rewrite zlength_app; unfold zlength; rewrite !msb_bits_length; reflexivity. }
+  assert (Hgf4 : az_get_gf 4 = Some sp_gf4) by reflexivity.
+  assert (Hmm : exists mmw mcw,
+     az_generate_mode_message c L D = Ok (az_words_bits 4 (mmw ++ mcw))
+     /\ az_words_bits 4 mmw = hdr /\ Forall (word_range 4) (mmw ++ mcw)
+     /\ sp_rs_ok sp_gf4 (mmw ++ mcw) (if c then 5 else 6) = true
+     /\ zlength (mmw ++ mcw) = if c then 7 else 10).
+  { unfold az_generate_mode_message. fold hdr.
+    destruct c.
+    - destruct (generate_check_words_spec 4 sp_gf4 hdr 28 Hgf4) as (mmw & mcw & Hg & Hb & Hl1 & Hl2 & Hr & Hs);
+        try (rewrite Hhdr_len; reflexivity); try lia.
+      rewrite Hhdr_len in *. change (28 / 4 - 8 / 4) with 5 in *. change (8 / 4) with 2 in *.
+      exists mmw, mcw. unfold hdr in Hg. rewrite Hg. change (Z.to_nat (28 mod 4)) with 0%nat.
+      cbn [repeat app]. change (Z.to_nat 4) with 4%nat in *. repeat split; auto.
+      rewrite zlength_app. lia.
+    - destruct (generate_check_words_spec 4 sp_gf4 hdr 40 Hgf4) as (mmw & mcw & Hg & Hb & Hl1 & Hl2 & Hr & Hs);
+        try (rewrite Hhdr_len; reflexivity); try lia.
+      rewrite Hhdr_len in *. change (40 / 4 - 16 / 4) with 6 in *. change (16 / 4) with 4 in *.
+      exists mmw, mcw. unfold hdr in Hg. rewrite Hg. change (Z.to_nat (40 mod 4)) with 0%nat.
+      cbn [repeat app]. change (Z.to_nat 4) with 4%nat in *. repeat split; auto.
+      rewrite zlength_app. lia. }
+  destruct Hmm as (mmw & mcw & Hgm & Hmb & Hmr & Hms & Hml).
+  set (msg := repeat false (Z.to_nat (tb mod w)) ++ az_words_bits (Z.to_nat w) (mw ++ cw)).
+  set (mm := az_words_bits 4 (mmw ++ mcw)).
+  assert (Hmsg_len : zlength msg = az_total_bits L c).
+  { rewrite az_total_bits_iso. fold tb. unfold msg. rewrite zlength_app. unfold zlength.
+    rewrite repeat_length, words_bits_length, app_length.
+    unfold zlength in Hmwl, Hcwl. pose proof (Z.div_mod tb w ltac:(lia)).
+    pose proof (Z.mod_pos_bound tb w ltac:(lia)). nia. }
+  assert (Hmm_len : zlength mm = az_mode_len c).
+  { unfold mm, zlength. rewrite words_bits_length. unfold zlength in Hml. unfold az_mode_len.
+    destruct c; lia. }
+  exists msg, mm.
+  split.
+  { unfold az_symbol. rewrite az_total_bits_iso. fold tb. fold w. rewrite Hgen. cbn [obind].
+    rewrite go_div_nonneg by lia. fold D. rewrite Hgm. cbn [obind]. fold msg. fold mm.
+    destruct (az_layout_read c L msg mm Hv Hmsg_len Hmm_len) as (_ & Hbad & _).
+    rewrite Hbad. reflexivity. }
+  split.
+  { exists mw, cw, mmw, mcw. repeat split; auto. }
+  repeat split; auto; try lia.
+Qed.
+
+Lemma firstn_app_exact {A} (a b : list A) n : length a = n -> firstn n (a ++ b) = a.
+Proof. intros <-. rewrite firstn_app, Nat.sub_diag, firstn_all. cbn [firstn]. apply app_nil_r. Qed.
+
+Lemma skipn_app_exact {A} (a b : list A) n : length a = n -> skipn n (a ++ b) = b.
+Proof. intros <-. rewrite skipn_app, Nat.sub_diag, skipn_all. reflexivity. Qed.
+
+(* what the reader of the specification makes of a drawn symbol *)
+Lemma read_symbol c L st msg mm ubits payload :
+  cfg_valid c L -> symbol_parts c L st msg mm ->
+  zlength msg = az_total_bits L c -> zlength mm = az_mode_len c ->
+  1 <= zlength st / sp_word_size L < sp_capacity c L / sp_word_size L ->
+  zlength st mod sp_word_size L = 0 ->
+  (c = true -> zlength st / sp_word_size L <= 64) ->
+  sp_unstuff (Z.to_nat (sp_word_size L)) st = Some ubits ->
+  aztec_decode_hl ubits = Some payload ->
+  let M := az_draw c L msg mm in
+  aztec_read (az_rows (Z.to_nat (am_size M)) 0 M)
+  = ROk {| ar_compact := c; ar_layers := L;
+           ar_datawords := zlength st / sp_word_size L;
+           ar_checkwords := sp_capacity c L / sp_word_size L - zlength st / sp_word_size L;
+           ar_payload := payload |}.
+Proof.
+  intros Hv (mw & cw & mmw & mcw & Hmsg & Hmwb & Hmwl & Hcwl & Hrange & Hrs & Hmm & Hmmb & Hmmr & Hmmrs & Hmml)
+         Hmsgl Hmml' HD Hmod HD64 Hun Hdec M.
+  destruct (az_layout_read c L msg mm Hv Hmsgl Hmml')
+    as (Hsize & Hbad & Hn & Hodd & H15 & Hrl & Hrf & Hfind & Hfull & Hmode & Hdata & Hcaplen).
+  fold M in Hsize, Hbad, Hrl, Hrf, Hfind, Hfull, Hmode, Hdata.
+  set (rows := az_rows (Z.to_nat (am_size M)) 0 M) in *.
+  set (n := az_matrix_size c L) in *.
+  pose proof (sp_word_size_range L) as Hw. set (w := sp_word_size L) in *.
+  destruct (cfg_arith_all c L Hv) as (Hcap1 & Hcap2 & Hcap3). fold w in Hcap1, Hcap2.
+  set (tb := sp_capacity c L) in *. set (D := zlength st / w) in *. set (T := tb / w) in *.
+  assert (HL : 1 <= L <= 32) by (unfold cfg_valid in Hv; destruct c; lia).
+  unfold aztec_read. rewrite Hrl.
+  (* the image is an odd square *)
+  assert (E1 : negb (forallb (fun r : list bool => zlength r =? n) rows) || Z.even n || (n <? 15) = false).
+  { rewrite (forall_forallb (fun r => zlength r = n) _ rows); [|intros x Hx; lia|exact Hrf].
+    rewrite <- Z.negb_odd, Hodd. cbn [negb orb]. lia. }
+  rewrite E1.
+  (* finder: compact or full-range *)
+  assert (E2 : sp_cells_ok rows (sp_finder true (n / 2)) = c).
+  { destruct c; [exact Hfind | apply Hfull; reflexivity]. }
+  assert (E3 : negb (sp_cells_ok rows (sp_finder true (n / 2)) || sp_cells_ok rows (sp_finder false (n / 2))) = false).
+  { rewrite E2. destruct c; [reflexivity|]. rewrite Hfind. reflexivity. }
+  rewrite E3, E2, Hmode.
+  (* mode message *)
+  assert (Hmmbits : mm = (if c then msb_bits 2 (L - 1) ++ msb_bits 6 (D - 1)
+                          else msb_bits 5 (L - 1) ++ msb_bits 11 (D - 1)) ++ az_words_bits 4 mcw).
+  { rewrite Hmm, words_bits_app, Hmmb. reflexivity. }
+  assert (E4 : sp_words_of 4 mm = Some (mmw ++ mcw)).
+  { rewrite Hmm. apply sp_words_of_words_bits; [lia | exact Hmmr]. }
+  rewrite E4, Hmmrs. cbn [negb].
+  assert (E5 : (if c then sp_val (firstn 2 mm) 0 else sp_val (firstn 5 mm) 0) + 1 = L).
+  { rewrite Hmmbits. destruct c; rewrite <- app_assoc.
+    - rewrite firstn_app_exact by apply msb_bits_length.
+      rewrite sp_val_msb_bits_small; [lia|]. unfold cfg_valid in Hv. simpl. lia.
+    - rewrite firstn_app_exact by apply msb_bits_length.
+      rewrite sp_val_msb_bits_small; [lia|]. simpl. lia. }
+  assert (E6 : (if c then sp_val (firstn 6 (skipn 2 mm)) 0 else sp_val (firstn 11 (skipn 5 mm)) 0) + 1 = D).
+  { rewrite Hmmbits. destruct c; rewrite <- app_assoc.
+    - rewrite skipn_app_exact by apply msb_bits_length.
+      rewrite firstn_app_exact by apply msb_bits_length.
+      rewrite sp_val_msb_bits_small; [lia|]. specialize (HD64 eq_refl). simpl. lia.
+    - rewrite skipn_app_exact by apply msb_bits_length.
+      rewrite firstn_app_exact by apply msb_bits_length.
+      rewrite sp_val_msb_bits_small; [lia|]. simpl. lia. }
+  rewrite E5, E6.
+  assert (E7 : negb (sp_size c L =? n) = false) by (rewrite <- Hn, Z.eqb_refl; reflexivity).
+  rewrite E7.
+  assert (E8 : negb c && negb (sp_cells_ok rows (sp_grid n (n / 2))) = false).
+  { destruct c; [reflexivity|]. destruct (Hfull eq_refl) as [_ ->]. reflexivity. }
+  rewrite E8, Hdata.
+  (* data codewords *)
+  rewrite Hmsgl, az_total_bits_iso. fold tb. fold w.
+  assert (E9 : skipn (Z.to_nat (tb mod w)) msg = az_words_bits (Z.to_nat w) (mw ++ cw)).
+  { rewrite Hmsg. apply skipn_app_exact. apply repeat_length. }
+  rewrite E9.
+  assert (E10 : sp_words_of (Z.to_nat w) (az_words_bits (Z.to_nat w) (mw ++ cw)) = Some (mw ++ cw)).
+  { apply sp_words_of_words_bits; [lia | exact Hrange]. }
+  rewrite E10.
+  assert (E11 : zlength (mw ++ cw) = T) by (rewrite zlength_app, Hmwl, Hcwl; lia).
+  rewrite E11.
+  assert (E12 : (T <=? D) = false) by lia.
+  rewrite E12, Hrs. cbn [negb].
+  assert (E13 : firstn (Z.to_nat (D * w)) (az_words_bits (Z.to_nat w) (mw ++ cw)) = st).
+  { rewrite words_bits_app, <- Hmwb. apply firstn_app_exact.
+    rewrite words_bits_length. unfold zlength in Hmwl. nia. }
+  rewrite E13, Hun, Hdec. reflexivity.
+Qed.
+
+Lemma ecc_bits_ge bits pct : 0 <= pct -> 11 <= az_ecc_bits bits pct.
+Proof.
+  intros Hp. unfold az_ecc_bits. pose proof (zlength_nonneg bits).
+  rewrite go_div_nonneg by nia. assert (0 <= zlength bits * pct / 100) by (apply Z.div_pos; nia). lia.
+Qed.
+
+(* the master theorem about EncodeWithColor's model *)
+Theorem az_encode_spec : forall data pct req,
+  Forall is_byte data -> zlength data < 2 ^ 57 -> 0 <= pct ->
+  exists hl, az_highlevel data = Ok hl /\
+  match az_encode data pct req with
+  | Ok bc =>
+      exists c L st,
+        cfg_valid c L /\ az_stuff_bits hl (sp_word_size L) = Ok st
+        /\ az_request_fits hl pct req c L
+        /\ aztec_read (bc_rows bc)
+           = ROk {| ar_compact := c; ar_layers := L;
+                    ar_datawords := zlength st / sp_word_size L;
+                    ar_checkwords := sp_capacity c L / sp_word_size L - zlength st / sp_word_size L;
+                    ar_payload := data |}
+        /\ az_ecc_bits hl pct
+           <= (sp_capacity c L / sp_word_size L - zlength st / sp_word_size L) * sp_word_size L
+        /\ bc_kind bc = KAztec /\ bc_content bc = data /\ bc_checksum bc = None
+        /\ bc_width bc = sp_size c L /\ bc_height bc = sp_size c L
+        /\ zlength (bc_rows bc) = sp_size c L
+        /\ Forall (fun r => zlength r = sp_size c L) (bc_rows bc)
+  | Err =>
+      if req =? 0 then forall j, 0 <= j <= 32 -> fits_at hl (az_ecc_bits hl pct) j = false
+      else ~ (-4 <= req <= 32) \/ az_fits hl (az_ecc_bits hl pct) (req <? 0) (Z.abs req) = false
+  | _ => False
+  end.
+Proof.
+  intros data pct req Hbytes Hlen Hpct.
+  destruct (az_highlevel_correct data Hbytes Hlen) as (hl & Hhl & Hdec).
+  exists hl. split; [exact Hhl|].
+  unfold az_encode. rewrite Hhl. cbn [obind].
+  pose proof (az_choose_config_spec hl pct req) as Hcfg.
+  destruct (az_choose_config hl pct req) as [[[[[c L] tb] w] st]| | |]; cbn [obind]; auto.
+  destruct Hcfg as (Hv & Htb & Hw & Hst & Hreq). subst tb w.
+  pose proof Hreq as [Hfit _].
+  destruct (symbol_spec c L st hl (az_ecc_bits hl pct) Hv (ecc_bits_ge hl pct Hpct) Hst Hfit)
+    as (msg & mm & Hsym & Hparts & Hmsgl & Hmml & HD & Hmod & HD64 & Hecc).
+  rewrite Hsym. cbn [obind].
+  pose proof (sp_word_size_range L) as Hwr.
+  destruct (az_stuff_correct (sp_word_size L) hl ltac:(lia)) as (out & k & Hst' & Hun & Hk & _).
+  rewrite Hst in Hst'. inversion Hst'; subst out. clear Hst'.
+  assert (Hk11 : (k <= 11)%nat) by lia.
+  pose proof (read_symbol c L st msg mm _ data Hv Hparts Hmsgl Hmml HD Hmod HD64 Hun (Hdec k Hk11)) as Hread.
+  destruct (az_layout_read c L msg mm Hv Hmsgl Hmml)
+    as (Hsize & Hbad & Hn & Hodd & H15 & Hrl & Hrf & _).
+  cbv zeta in Hread.
+  exists c, L, st. cbn [bc_rows bc_kind bc_content bc_checksum bc_width bc_height].
+  rewrite <- Hn.
+  repeat match goal with |- _ /\ _ => split end; auto.
 Qed.
 
 End Compose.
